@@ -538,6 +538,10 @@ func (m *Mux) serveHTTP(w http.ResponseWriter, r *http.Request) error {
 			w.Header().Set("Content-Encoding", "identity") // try to avoid gzip
 		}
 		m.encError(w, r, herr)
+	} else if !stream.sentHeader {
+		// A call that succeeds without sending a message (an empty stream)
+		// still has its header metadata.
+		setOutgoingHeader(w.Header(), stream.header)
 	}
 	return nil
 }
